@@ -23,6 +23,16 @@ Correspondence.  For every generated (schema version, document):
      the Lean model Model/AttrDefaults.lean, whose events (proved to be: the decoded IDREFs, explicit or supplied
      by a value constraint, that no decoded ID defines, …) are compared with the events of `iter_errors` AND with
      the events of `iter_decode`.
+  5. schema family W (harness/lib_c04w.py): attribute AND element wildcards with processContents strict / lax / skip
+     (and ##other strict) x names that are declared (target / imported namespace; valid and invalid value, simple
+     and complex), not declared in a known namespace, of an unknown namespace, of no namespace, not admitted, and
+     elements with xsi:type — every (carrier, item) once as the only defect of a document, then random documents;
+     the same table at unit level: every wildcard component x name x value x mode through raw_decode / the
+     component API against Modes.anyAttrEvents / anyElemEvents (strict raises exactly the first lax event).
+  6. family I (XSD 1.1): inheritable attributes present on 0-3 nested elements x position of the error (the descent
+     continues on a copy of the context: finding C04-F5, whose repair is emulated in-process for the rest of the
+     evaluation);  comment / PI nodes inserted into 9 % of all documents and run on the source kinds that keep them
+     (lxml, ElementTree with insert_comments) and that drop them (findings C04-F6 / C04-F7).
 
 Property evaluation on the real code (independent of Lean): all verdicts of a case are equal,
 strict raises the first lax error, lax/skip never raise, data of valid documents are equal for all
@@ -59,7 +69,11 @@ RULE = ('a case is one (XSD version, schema family, generated document); documen
         'IDREF / IDREFS / ID (1.1) / QName type, each written or OMITTED by the instance, damaged by 0-3 of 8 fault '
         'classes (target of an omitted constrained IDREF removed, explicit dangling IDREF, prefix of a defaulted QName '
         'unbound, duplicate ID, duplicated defaulted ID, wrong fixed value, missing required, unknown attribute); a '
-        'share of all cases is repeated with use_defaults=False on every entry point; every case is '
+        'share of all cases is repeated with use_defaults=False on every entry point; family W: 1-4 wildcard carriers '
+        '(processContents strict/lax/skip, ##other) with 0-2 attributes and 0-3 child elements from 8 + 15 item classes '
+        '(declared valid/invalid, not found, unavailable namespace, not admitted, xsi:type), all items acceptable for '
+        'their carrier except 0-3; family I (1.1): inheritable attribute on 0-3 levels x 9 error positions; 9 % of all '
+        'documents again with one comment / PI node inserted; every case is '
         'run through all entry points x modes x source kinds; non-trivial = the document is invalid, or valid with '
         'more than 3 decoded items; distinct by canonical JSON of (version, family, XML text, path, use_defaults)')
 TRUSTED = [
@@ -70,6 +84,11 @@ TRUSTED = [
     'errors are identified by (class, location path with prefixes removed, reason text with prefixes removed)',
     'family V: the request of the attribute model is built by introspection (attribute groups of the built schema, '
     'document parsed by lxml); real errors are mapped to the event alphabet of the model by their reason text',
+    'wildcard unit table: the look-up outcome (namespace loadable, global declaration present, lax errors of the '
+    'declaration on the value) is read from the global maps of the built schema; attribute wildcards are driven through '
+    'raw_decode with a context built as ValidationMixin.iter_decode builds it (the component API rejects a pair source)',
+    'finding C04-F5 is matched by running the same document with ValidationContext.__copy__ replaced in-process by a '
+    'version that shares `errors` and `id_map`; findings C04-F6/F7 by running the same tree without its comment / PI nodes',
 ]
 ASSUMPTIONS = [
     'fully loaded (non-lazy) resources, no max_depth / hooks arguments (lazy resources are property C06); the path '
@@ -81,6 +100,8 @@ ASSUMPTIONS = [
     'attribute model (family V): no attribute wildcards, values whitespace-normalised and lexically valid, ID-typed '
     'values in attributes only, all namespace declarations on the root element (checked per document; documents '
     'outside are counted as V:model-skip and still go through the entry-point comparison)',
+    'documents with comment / PI nodes: the child position printed in "Unexpected child … at position N" is not '
+    'compared (tree sources count the nodes), the component level is not run',
 ]
 
 FINDINGS_FILES = [VERIF / 'notes' / 'findings' / 'C04.json', VERIF / 'notes' / 'findings' / 'C11.json']
@@ -105,6 +126,13 @@ def known_match(case: dict, detail: Any) -> Optional[str]:
     C04-F2  only reference-phase errors (IDREF … not found) exist and only the decoding entry points miss them.
     C04-F3  strict raises the union's generic "invalid value" decode error where lax collects the facet error of a
             member type, at the same location, for an element declared with a union type.
+    C04-F5  the errors that a lax run loses are exactly recovered when ValidationContext.__copy__ shares the error
+            list (emulated in-process), and then strict raises the first lax error.
+    C04-F6  a tree source that keeps comment / PI nodes gives another outcome than the text source, the same tree
+            without those nodes gives the outcome of the text source, and the tree reports "a simple content element
+            can't have child elements" / "xsi:nil='true' but the element is not empty".
+    C04-F7  as C04-F6 without one of these two errors (character data after a comment / PI is not read: mixed and
+            xs:anyType content, XPath-based assertions and identity fields).
     C11-F4  OverflowError raised by a skip-mode decoding entry point for a value the lax run reports as
             'year overflow' style decode error.
     C11-F5  XMLSchemaKeyError "global component … not found" for an xsi:type attribute on a non-root element.
@@ -117,6 +145,10 @@ def known_match(case: dict, detail: Any) -> Optional[str]:
     if isinstance(case.get('xml'), str) and '&' in case['xml']:
         case = dict(case, xml=html.unescape(case['xml']))
     kind = detail.get('kind')
+    if kind == 'context-copy' and detail.get('exact'):
+        return 'C04-F5'
+    if kind == 'comment-nodes' and detail.get('attributable'):
+        return 'C04-F6' if detail.get('simple_content_or_nil') else 'C04-F7'
     if kind == 'verdict' and detail.get('only_reference_errors') and detail.get('dissenting_all_decode'):
         return 'C04-F2'
     if kind == 'first-error' and union_f3(detail.get('raised'), detail.get('first')):
@@ -170,9 +202,15 @@ CLARK_RE = re.compile(r'\{[^}]*\}')
 ADDR_RE = re.compile(r' at 0x[0-9a-fA-F]+')
 
 
+STRIP_POSITION = [False]      # documents with comment / PI nodes: child positions count those nodes in tree sources
+POSITION_RE = re.compile(r' at position \d+')
+
+
 def norm_text(s: Optional[str]) -> str:
     if s is None:
         return ''
+    if STRIP_POSITION[0]:
+        s = POSITION_RE.sub('', s)
     s = ADDR_RE.sub('', s)
     s = CLARK_RE.sub('', s)
     s = PREFIX_RE.sub('', s)
@@ -350,7 +388,9 @@ def build_script(log: list, ids: Ids, canon: Callable[[Any], Any]) -> tuple[list
 # sources
 
 SOURCE_KINDS = ['text', 'bytes', 'path', 'url', 'ftext', 'fbin', 'sio', 'bio', 'res', 'lxml', 'lxmltree', 'et', 'ettree']
-ET_KINDS = ('et', 'ettree')
+ET_KINDS = ('et', 'ettree', 'etc')
+COMMENT_KEEPING_KINDS = ('lxml', 'lxmltree', 'etc')      # tree sources in which comment / PI nodes exist
+CM_KINDS = ['text', 'path', 'lxml', 'lxmltree', 'et', 'etc', 'res']
 
 
 class Sources:
@@ -394,6 +434,24 @@ class Sources:
             return ET.fromstring(self.xml)
         if kind == 'ettree':
             return ET.parse(str(self.path))
+        if kind == 'etc':
+            return ET.fromstring(self.xml, parser=ET.XMLParser(target=ET.TreeBuilder(insert_comments=True, insert_pis=True)))
+        raise ValueError(kind)
+
+    def make_stripped(self, kind: str) -> Any:
+        """The same tree source without its comment / PI nodes (character data joined)."""
+        from xml.etree import ElementTree as ET
+        import lxml.etree as LE
+        if kind == 'lxml':
+            root = LE.fromstring(self.xml.encode('utf-8'))
+            LE.strip_tags(root, LE.Comment, LE.ProcessingInstruction)
+            return root
+        if kind == 'lxmltree':
+            tree = LE.parse(str(self.path))
+            LE.strip_tags(tree, LE.Comment, LE.ProcessingInstruction)
+            return tree
+        if kind == 'etc':
+            return ET.fromstring(self.xml)
         raise ValueError(kind)
 
     def close(self) -> None:
@@ -543,6 +601,10 @@ class Env:
                 self.xsd_paths[fam, v11] = p
                 # family W imports a second schema document: built from the file
                 self.schemas[fam, v11] = (xmlschema.XMLSchema11 if v11 else xmlschema.XMLSchema10)(str(p) if fam == 'W' else text)
+        pi = self.tmp / 'schema_I_11.xsd'
+        pi.write_text(GW.XSD_I)
+        self.xsd_paths['I', True] = pi
+        self.schemas['I', True] = xmlschema.XMLSchema11(GW.XSD_I)
         self.rec = Recorder()
         self.rec.install()
         self.n = 0
@@ -559,10 +621,114 @@ def canon_for(case: dict) -> Callable[[Any], Any]:
 
 
 def public_case(case: dict) -> dict:
-    return {k: case[k] for k in ('v', 'family', 'style', 'xml', 'faults', 'prefix_dependent', 'path', 'ud', 'lite') if k in case}
+    return {k: case[k] for k in ('v', 'family', 'style', 'xml', 'faults', 'prefix_dependent', 'path', 'ud', 'lite', 'cm') if k in case}
+
+
+class SharedCopy:
+    """Emulates the repair of finding C04-F5 in this process: a copied validation context shares the error list and
+    the ID map of the original (nothing in /repo is touched)."""
+
+    def __enter__(self) -> 'SharedCopy':
+        import xmlschema.validators.validation as V
+        self.V = V
+        self.orig = orig = V.ValidationContext.__copy__
+
+        def __copy__(ctx_self: Any) -> Any:
+            c = orig(ctx_self)
+            c.errors = ctx_self.errors
+            c.id_map = ctx_self.id_map
+            return c
+
+        V.ValidationContext.__copy__ = __copy__
+        return self
+
+    def __exit__(self, *a: Any) -> None:
+        self.V.ValidationContext.__copy__ = self.orig
+
+
+def is_subsequence(a: list, b: list) -> bool:
+    it = iter(b)
+    return all(any(x == y for y in it) for x in a)
 
 
 def run_case(env: Env, case: dict, kinds: list[str], reqs: Optional[list], pend: Optional[list]) -> None:
+    """One case; the two configurations that need care around the plain run:
+    * documents with comment / PI nodes: child positions in error texts are not compared;
+    * schemas with inheritable attributes (XSD 1.1): finding C04-F5 is detected and matched exactly, and the
+      evaluation then runs on the repaired behaviour (emulated in-process)."""
+    ctx = env.ctx
+    STRIP_POSITION[0] = bool(case.get('cm'))
+    try:
+        if case['family'] == 'I':
+            schema = env.schemas['I', True]
+            pc = public_case(case)
+            xml = case['xml']
+            try:
+                real = [err_key(e) for e in schema.iter_errors(xml)]
+                strict = outcome(lambda: {'ok': schema.validate(xml)})
+                with SharedCopy():
+                    emu = [err_key(e) for e in schema.iter_errors(xml)]
+                    strict_emu = outcome(lambda: {'ok': schema.validate(xml)})
+            except RecursionError:
+                raise
+            except Exception as e:  # noqa
+                report(ctx, 'a lax run raised instead of collecting', pc,
+                       {'kind': 'exception', 'exc': type(e).__name__, 'msg': str(e)[:200], 'entry': 'iter_errors'})
+                return
+            if real != emu:
+                ctx.count('I:errors-lost-below-a-context-copy')
+                exact = is_subsequence(real, emu) and strict == strict_emu and \
+                    strict.get('raise') == (emu[0] if emu else None)
+                n_before = len(ctx.failures)
+                report(ctx, 'errors collected below an element that carries an inheritable attribute are lost in lax mode',
+                       pc, {'kind': 'context-copy', 'lax': real, 'lax_with_shared_errors': emu, 'strict': strict,
+                            'exact': exact})
+                if len(ctx.failures) == n_before:
+                    with SharedCopy():
+                        _run_case(env, case, kinds, reqs, pend)
+                    return
+        _run_case(env, case, kinds, reqs, pend)
+    finally:
+        STRIP_POSITION[0] = False
+
+
+def comment_attribution(env: Env, case: dict, pc: dict, src: 'Sources', eps: dict, outs: dict, kinds: list[str]) -> list[str]:
+    """Documents with comment / PI nodes: a tree source that keeps those nodes must give the outcome of the text
+    source.  Where it does not, the same tree WITHOUT the nodes is run: equal to the text source = the difference is
+    attributable to the nodes (findings C04-F6 / C04-F7, matched exactly by this test); such a source is then taken
+    out of the rest of the evaluation.  Returns the remaining kinds."""
+    ctx = env.ctx
+    base = outs['text']
+    keep = []
+    for kind in kinds:
+        if kind not in COMMENT_KEEPING_KINDS or outs[kind] == base:
+            keep.append(kind)
+            continue
+        stripped = {}
+        for name, fn in eps.items():
+            s = src.make_stripped(kind)
+            stripped[name] = outcome(lambda: fn(s))
+        attributable = stripped == base
+        tree_errors = outs[kind].get('iter_errors', {}).get('ok') or [] if isinstance(outs[kind].get('iter_errors'), dict) else []
+        simple = any("a simple content element can't have child elements" in r or
+                     "nil='true' but the element is not empty" in r for r in tree_errors)
+        differing = sorted(n for n in base if outs[kind].get(n) != base.get(n))
+        n_before = len(ctx.failures)
+        ctx.count('cm:outcome-differs:' + kind)
+        report(ctx, 'comment / PI nodes of a tree source change the outcome (verdict or data depend on the source kind)', pc,
+               {'kind': 'comment-nodes', 'source': kind, 'attributable': attributable, 'simple_content_or_nil': simple,
+                'differing_entry_points': differing[:8], 'text:iter_errors': base.get('iter_errors'),
+                '%s:iter_errors' % kind: outs[kind].get('iter_errors'),
+                'text:decode:lax': json.dumps(base.get('decode:lax'), default=str)[:300],
+                '%s:decode:lax' % kind: json.dumps(outs[kind].get('decode:lax'), default=str)[:300]})
+        if len(ctx.failures) != n_before:
+            keep.append(kind)       # not a listed finding: the source stays in the evaluation
+        else:
+            del outs[kind]
+    return keep
+
+
+def _run_case(env: Env, case: dict, kinds: list[str], reqs: Optional[list], pend: Optional[list]) -> None:
     """Run one case on the real code: record scripts, call every entry point, evaluate the property."""
     ctx = env.ctx
     v11 = case['v'] == '1.1'
@@ -604,6 +770,8 @@ def run_case(env: Env, case: dict, kinds: list[str], reqs: Optional[list], pend:
             s = src.make(kind)
             outs[kind][name] = outcome(lambda: fn(s))
         src.close()
+    if case.get('cm'):
+        kinds = comment_attribution(env, case, pc, src, eps, outs, kinds)
 
     # 3. the property itself, directly on the outcomes ------------------------------------------
     verdicts: dict[tuple[str, str], bool] = {}
@@ -687,12 +855,16 @@ def run_case(env: Env, case: dict, kinds: list[str], reqs: Optional[list], pend:
     nerr = len(outs['text'].get('iter_errors', {}).get('ok', []) or []) if isinstance(outs['text'].get('iter_errors'), dict) else 0
     ctx.case({'v': case['v'], 'family': case['family'], 'xml': case['xml'], 'path': path, 'ud': ud},
              invalid or len(case['xml']) > 400,
-             tag='%s/%s%s%s' % (case['v'], case['family'], '/path' if path else '', '' if ud else '/use_defaults=False'))
+             tag='%s/%s%s%s' % (case['v'], case['family'], '/path' if path else '', ('' if ud else '/use_defaults=False') + ('/comments' if case.get('cm') else '')))
     ctx.count('use_defaults:' + ('on' if ud else 'off'))
     for t in case.get('omitted', []):
         ctx.count('V:omitted:' + t)           # value constraint in effect: the instance omits the attribute / text
     for t in case.get('explicit', []):
         ctx.count('V:explicit:' + t)
+    for t in case.get('idims', []):
+        ctx.count('I:' + t)
+    if case.get('cm'):
+        ctx.count('cm:' + case['cm'])
     for t in case.get('dims', []):
         ctx.count('W:' + t)                    # wildcard kind : processContents : what the name resolves to
     ctx.count('verdict:' + ('invalid' if invalid else 'valid'))
@@ -716,7 +888,8 @@ def run_case(env: Env, case: dict, kinds: list[str], reqs: Optional[list], pend:
                 ctx.count('V:model-skip:' + str(e))
 
     # 5. component level (ValidationMixin) on an lxml element (keeps the prefix map)
-    if not path and not any(f.startswith('ROOT') or f.startswith('ID ') for f in case.get('faults', [])):
+    # (documents with comment / PI nodes: the component level takes tree sources only — same findings C04-F6/F7)
+    if not path and not case.get('cm') and not any(f.startswith('ROOT') or f.startswith('ID ') for f in case.get('faults', [])):
         component_case(env, case, schema, canon, reqs, pend, xkw)
 
 
@@ -730,6 +903,8 @@ def component_case(env: Env, case: dict, schema: Any, canon: Callable, reqs: Opt
     if case['family'] in 'VW':
         m = re.match(r'<p:(\w+)', case['xml'])
         tag = '{%s}%s' % (G.TNS, m.group(1) if m else 'reg')
+    elif case['family'] == 'I':
+        tag = 'top'
     else:
         tag = ('{%s}root' % G.TNS) if case['family'] == 'T' else 'doc'
     xsd_element = schema.maps.elements.get(tag)
@@ -1218,10 +1393,46 @@ def gen_cases(ctx: Ctx, n: int) -> list[dict]:
     for c in cases + vcases:
         if ctx.rng.random() < (0.3 if c['family'] == 'V' else 0.06):
             nodef.append(dict(c, ud=False))
-    return cases + extra + vcases + nodef + wcases
+    # family I (XSD 1.1): inheritable attributes present on 0-3 nested elements x where the error is (small scope)
+    icases = GW.small_scope_I()
+    for c in icases:
+        if ctx.quick() and ctx.rng.random() < 0.8:
+            c['lite'] = True
+    # comment / PI nodes: a share of all documents gets one node inserted (half of them inside a leaf element);
+    # run on the source kinds that keep such nodes and on those that drop them
+    cmcases = []
+    for c in cases + vcases + wcases + icases:
+        if ctx.rng.random() < 0.09:
+            xml, where = insert_comment(ctx.rng, c['xml'])
+            d = dict(c, xml=xml, cm=where)
+            d.pop('lite', None)
+            cmcases.append(d)
+    return cases + extra + vcases + nodef + wcases + icases + cmcases
+
+
+COMMENT_NODES = ['<!-- c -->', '<?pi x?>', '<!---->', '<!-- a --><?p?>']
+
+
+def insert_comment(rng: Any, xml: str) -> tuple[str, str]:
+    """One comment / PI node after a random '>' (tags only: '>' is escaped in text and attribute values)."""
+    ends = [i + 1 for i, ch in enumerate(xml) if ch == '>']
+    leaf_starts = [i for i in ends if i < len(xml) and xml[i] != '<' and xml[i - 2] != '/']      # <x>|text
+    leaf_ends = [m.start() for m in re.finditer(r'[^>]</', xml)]
+    leaf_ends = [i + 1 for i in leaf_ends]                                                       # text|</x>
+    r = rng.random()
+    if r < 0.3 and leaf_starts:
+        i, where = rng.choice(leaf_starts), 'before-leaf-text'
+    elif r < 0.5 and leaf_ends:
+        i, where = rng.choice(leaf_ends), 'after-leaf-text'
+    else:
+        i, where = rng.choice(ends), 'after-a-tag'
+    node = rng.choice(COMMENT_NODES)
+    return xml[:i] + node + xml[i:], where + ':' + ('pi' if node.startswith('<?') else 'comment')
 
 
 def kinds_for(case: dict) -> list[str]:
+    if case.get('cm'):
+        return [k for k in CM_KINDS if not (case['prefix_dependent'] and k in ET_KINDS)]
     if case.get('path') or not case.get('ud', True) or case.get('lite'):
         return [k for k in ['text', 'path', 'lxml', 'et', 'res'] if not (case['prefix_dependent'] and k in ET_KINDS)]
     return [k for k in SOURCE_KINDS if not (case['prefix_dependent'] and k in ET_KINDS)]
@@ -1247,11 +1458,19 @@ def witness_cases() -> list[dict]:
         {'v': '1.0', 'family': 'W', 'style': 'prefix', 'prefix_dependent': False,
          'faults': ['W attr strict not found(target)'], 'dims': ['attr:strict:not found(target)'],
          'xml': '<p:box %s><p:ws p:zz="1"/></p:box>' % GW.ROOT_NS},
+        # unshared_scope_counterexample / finding C04-F5: the only error is below an element with an inheritable attribute
+        GW.doc_I(1, 'a'),
+        # findings C04-F6 / C04-F7: a comment / PI node inside simple content, inside xs:anyType content
+        {'v': '1.0', 'family': 'N', 'style': 'prefix', 'prefix_dependent': False, 'faults': [],
+         'cm': 'after-leaf-text:comment', 'xml': '<doc><yr>2024<!-- c --></yr></doc>'},
+        {'v': '1.0', 'family': 'T', 'style': 'prefix', 'prefix_dependent': False, 'faults': [],
+         'cm': 'before-leaf-text:pi',
+         'xml': '<p:root xmlns:p="urn:t" xmlns:o="urn:o" version="2"><p:title>x</p:title><o:any0><?pi x?>free</o:any0></p:root>'},
     ]
 
 
 def run(ctx: Ctx, driver_ok: bool) -> None:
-    ctx.known.extend(e for e in local_findings() if e.get('id') in ('C04-F2', 'C04-F3', 'C11-F4', 'C11-F5', 'C11-F7')
+    ctx.known.extend(e for e in local_findings() if e.get('id') in ('C04-F2', 'C04-F3', 'C04-F5', 'C04-F6', 'C04-F7', 'C11-F4', 'C11-F5', 'C11-F7')
                      and not any(k['id'] == e['id'] for k in ctx.known))
     drv = Driver('drv_c04') if driver_ok else None
     env = Env(ctx)
